@@ -1,6 +1,6 @@
 (* Model side of kind txth (C06/C07 link): a history of in-memory API calls, then serialize -> from_bytes, strings as
    Unicode scalar values on both ends; mirrors harness/src/k_txth.rs.
-     txth <L|B> (S L<key> L<msg> | D L<key> | T L<title> | H L<key> | G L<key>)*
+     txth <U|S> <L|B> (S L<key> L<msg> | D L<key> | T L<title> | H L<key> | G L<key>)*
    Output: ser=ok:B<image> | parse=ok d<dirty> T=L<title> [L<key>=L<msg> ...] *)
 open Dcommon
 open Machine
@@ -22,7 +22,8 @@ let herr (e : ekind) : string =
 
 let txth (toks : string list) : string =
   match toks with
-  | e :: rest ->
+  | f :: e :: rest ->
+    let fmt = if f = "U" then TextFormat.Unicode else TextFormat.ShiftJIS in
     let endian = if e = "B" then Bytes.BE else Bytes.LE in
     let rec ops acc = function
       | "S" :: k :: m :: r -> ops (TSet (parse_l k, parse_l m) :: acc) r
@@ -32,12 +33,12 @@ let txth (toks : string list) : string =
       | "G" :: k :: r -> ops (TGet (parse_l k) :: acc) r
       | [] -> List.rev acc
       | x :: _ -> failwith ("txth: bad token " ^ x) in
-    (match TextCodec.history_file Checked endian (ops [] rest) with
+    (match TextCodec.history_file Checked fmt endian (ops [] rest) with
      | Err e -> "ser=" ^ herr e
      | Panic _ -> "ser=PANIC"
      | Ok f ->
        let parsed =
-         (match TextCodec.parse_text endian f with
+         (match TextCodec.parse_text fmt endian f with
           | Ok (Some t) ->
             let es = List.map (fun (k, v) -> show_l k ^ "=" ^ show_l v) t.t_entries in
             Printf.sprintf "ok d%d T=%s [%s]" (if t.t_dirty then 1 else 0) (show_l t.t_title) (String.concat " " es)
